@@ -1157,3 +1157,21 @@ func (i *interpreter) stringsByteReplacerReplace() *ssa.Function {
 	t := pkg.Type("byteReplacer")
 	return i.prog.LookupMethod(types.NewPointer(t.Type()), pkg.Pkg, "Replace")
 }
+
+func init() {
+	// maps.clone is linknamed to the runtime: copy the engine map
+	register("maps.clone", func(fr *frame, a []value) value {
+		iv, ok := a[0].(iface)
+		if !ok {
+			panic(unsupported(fmt.Sprintf("maps.clone: argument %T", a[0])))
+		}
+		m, ok := iv.v.(*gomap)
+		if !ok {
+			panic(unsupported(fmt.Sprintf("maps.clone: dynamic type %T", iv.v)))
+		}
+		if m == nil {
+			return iv
+		}
+		return iface{t: iv.t, v: m.clone(fr)}
+	})
+}
